@@ -9,10 +9,12 @@
    before / after it, which global fields were in force when).
 
    Part (b): a two-thread interleaving model, at source-line granularity, of
-   [Destinations.send] (logging thread) racing with the FIRST [Destinations.add]
-   (eliot/_output.py).  Python list objects are modelled as objects: the old
-   list [buffer], the new list created by [self._destinations = []], live
-   iterators holding (list object, index).
+   [Destinations.send] (logging thread) running concurrently with the FIRST
+   [Destinations.add] (eliot/_output.py): the code as it is now (hand-over under
+   self._lock, flag set after the hand-over) and, in [Module Legacy], the code
+   before the repair (no lock, flag set before the swap).  Python list objects
+   are modelled as objects: the old list [buffer], the new list created by
+   [self._destinations = []], live iterators holding (list object, index).
 
    Definitions only; proofs are in Proofs/HandoverProofs.v. *)
 From Coq Require Import List PArith NArith ZArith Bool Arith.
@@ -135,9 +137,9 @@ Definition dests_after (s : state) (x : hop) : list dest :=
   | _ => dests s
   end.
 
-(* m carries every field of g, with g's value *)
+(* m carries every field of (the dict denoted by) g, with g's value *)
 Definition carries (g : fields) (m : msg) : Prop :=
-  forall k v, fget k g = Some v -> fget k m = Some v.
+  forall k v, fget k (mkfields g) = Some v -> fget k m = Some v.
 
 
 (* ===================================================================== *)
